@@ -70,7 +70,7 @@ class Ctx:
     def stream(self, data):
         if self.symbolic:
             return rt.SymStream(data)
-        return io.BytesIO(bytes(data))
+        return LoggedBytesIO(bytes(data))
 
     def based_stream(self, data, base, junk=0xA5):
         """Stream positioned at absolute offset `base`, `data` starting there."""
@@ -94,6 +94,19 @@ class Ctx:
 
     def note(self, text):
         self.notes.append(text)
+
+
+class LoggedBytesIO(io.BytesIO):
+    """io.BytesIO that records its read calls (the concrete counterpart of SymStream.log)."""
+
+    def __init__(self, data=b""):
+        super().__init__(data)
+        self.log = []
+
+    def read(self, n=-1):
+        out = super().read(n)
+        self.log.append(("read", n, len(out)))
+        return out
 
 
 class ConcreteFaultStream(io.BytesIO):
